@@ -715,6 +715,14 @@ pub fn run(tier: Tier, replay: Option<&str>) {
         d.dr = Some(5);
         runs.push(RunCfg { front: front.into(), class_c: false, bound: 1, dev: d });
     }
+    // nb boards whose receive windows stay open until / beyond the start of RX2, at an uplink rate whose RX1 admits longer
+    // frames than RX2 (EU868 DR5: 250 vs 59 bytes; US915 DR0: RX1 at DR10)
+    for (region, dr, dur) in [("EU868", Some(5u8), 1000u32), ("US915", None, 2500)] {
+        let mut d = DevCfg::abp(region);
+        d.dr = dr;
+        d.duration_ms = dur;
+        runs.push(RunCfg { front: "nb".into(), class_c: false, bound: 1, dev: d });
+    }
     let mut states = 0u64;
     let mut transitions = 0u64;
     let mut capped = false;
@@ -750,7 +758,7 @@ pub fn run(tier: Tier, replay: Option<&str>) {
         "samples": [{"cfg": serde_json::to_value(&runs[0]).unwrap(), "history": [serde_json::to_value(&sample).unwrap()]}],
         "evaluations": ctx.evals(),
         "distinct_nontrivial": states,
-        "rule": "self-composition: pair states (twin A, twin B) of two real devices driven with identical events and RNG streams; every transaction of the base alphabet (plain / confirmed uplinks, downlinks that queue sticky answers, owed ACKs and one-shot answers, joins) is run with no injection and with each candidate frame injected into twin B at each receive opportunity (RX1, RX2; Class C: before RX1, before RX2, idle listening); candidates the reference accepts are skipped; after an injection the twins are compared in lock-step on responses, radio/timer operations, delivered downlinks and snapshots for the rest of the history; completely re-converged pairs are pruned",
+        "rule": "self-composition: pair states (twin A, twin B) of two real devices (also nb boards with 1000 / 2500 ms receive windows) driven with identical events and RNG streams; every transaction of the base alphabet (plain / confirmed uplinks, downlinks that queue sticky answers, owed ACKs and one-shot answers, joins) is run with no injection and with each candidate frame injected into twin B at each receive opportunity (RX1, RX2; Class C: before RX1, before RX2, idle listening); candidates the reference accepts are skipped; after an injection the twins are compared in lock-step on responses, radio/timer operations, delivered downlinks and snapshots for the rest of the history; completely re-converged pairs are pruned",
         "depth": depth,
         "injection_bound": 1,
         "configurations": runs.len(),
